@@ -73,6 +73,53 @@ func failingNewWatcher(buf int) (*fsnotify.Watcher, error, bool) {
 	return w, err, true
 }
 
+// countFds is the number of open descriptors of the process (the listing's own
+// descriptor is counted every time alike).
+func countFds() int {
+	ents, _ := os.ReadDir("/proc/self/fd")
+	return len(ents)
+}
+
+// instanceLimitNewWatcher calls NewWatcher while the per-user limit of inotify
+// instances is genuinely reached: raw instances are created until the kernel
+// refuses with EMFILE, NewWatcher is called, and the raw instances are closed
+// again at once (the limit is shared by all processes of the user, so the
+// state is held for well under a millisecond). ok is false when the limit
+// could not be reached or NewWatcher got through because somebody else
+// released an instance in between.
+func instanceLimitNewWatcher(buf int) (w *fsnotify.Watcher, err error, fdsBefore, fdsAfter int, ok bool) {
+	var raw []int
+	defer func() {
+		for _, fd := range raw {
+			syscall.Close(fd)
+		}
+	}()
+	fdsBefore = countFds()
+	for len(raw) < 4096 {
+		fd, e := syscall.InotifyInit1(syscall.IN_CLOEXEC | syscall.IN_NONBLOCK)
+		if e != nil {
+			if e != syscall.EMFILE {
+				return nil, nil, 0, 0, false
+			}
+			break
+		}
+		raw = append(raw, fd)
+	}
+	if buf < 0 {
+		w, err = fsnotify.NewWatcher()
+	} else {
+		w, err = fsnotify.NewBufferedWatcher(uint(buf))
+	}
+	for _, fd := range raw {
+		syscall.Close(fd)
+	}
+	raw = nil
+	if err == nil {
+		return w, nil, 0, 0, false
+	}
+	return w, err, fdsBefore, countFds(), true
+}
+
 func sameInts(a, b []int) bool {
 	if len(a) != len(b) {
 		return false
@@ -198,19 +245,55 @@ func TestC13Soak(t *testing.T) {
 	base := engine.InotifyFds()
 	dir := t.TempDir()
 	os.Mkdir(dir+"/d", 0o755)
+	// NewWatcher at the genuine per-user instance limit: 3 times (thorough 20)
+	probesWanted := 3
+	if os.Getenv("VERIF_TIER") == "thorough" {
+		probesWanted = 20
+	}
+	probes := probesWanted
 	for i := 0; i < n; i++ {
 		var w *fsnotify.Watcher
 		var err error
 		if i%7 == 3 {
 			var ok bool
+			nb := countFds()
 			w, err, ok = failingNewWatcher(i % 3)
 			if ok && err != nil {
 				if w != nil {
 					t.Fatalf("property C13 violated: failed NewWatcher returned a Watcher")
 				}
+				if na := countFds(); na != nb {
+					p := engine.SaveReplay("C13", &LCase{Prop: "C13", Consumer: "soak"})
+					t.Fatalf("property C13 violated (replay %s): a NewWatcher that failed (%v; descriptor limit) changed the number of open descriptors from %d to %d", p, err, nb, na)
+				}
 				st.AddFeat("soak-emfile", 1)
 				continue
 			}
+		} else if probes > 0 && i%(n/probesWanted+1) == 5 {
+			// the per-user instance limit itself
+			probes--
+			ww, e, nb, na, ok := instanceLimitNewWatcher(i % 3)
+			for attempt := 0; !ok && attempt < 5; attempt++ {
+				if ww != nil { // somebody released an instance in between: try again
+					ww.Close()
+				}
+				ww, e, nb, na, ok = instanceLimitNewWatcher(i % 3)
+			}
+			switch {
+			case !ok:
+				if ww != nil {
+					ww.Close()
+				}
+				st.AddFeat("soak-instance-limit-not-reached", 1)
+			case ww != nil:
+				t.Fatalf("property C13 violated: failed NewWatcher returned a Watcher")
+			case na != nb:
+				p := engine.SaveReplay("C13", &LCase{Prop: "C13", Consumer: "soak"})
+				t.Fatalf("property C13 violated (replay %s): a NewWatcher that failed (%v; per-user instance limit reached) changed the number of open descriptors from %d to %d", p, e, nb, na)
+			default:
+				st.AddFeat("soak-instance-limit-failures", 1)
+			}
+			continue
 		} else {
 			w, err = engine.NewWatcherRetry(i % 3)
 		}
